@@ -7,7 +7,7 @@
    simplicial classes) are tied to the code by the correspondence and decided by the oracle. *)
 From Coq Require Import String ZArith List Bool.
 From XV Require Import Base.Label Base.LSet Base.ODict Base.Attr Base.Outcome Model.Hypergraph Model.HgCheck Model.Convert
-  Proofs.HgViews Proofs.HgInv Proofs.HgStep Proofs.HgErrors Proofs.DerivedProofs Proofs.ConvertProofs Proofs.NoNoneProofs Model.Matrix Model.Graph Proofs.IncidenceRoundTrip Proofs.BipartiteRoundTrip.
+  Proofs.HgViews Proofs.HgInv Proofs.HgStep Proofs.HgErrors Proofs.DerivedProofs Proofs.ConvertProofs Proofs.NoNoneProofs Model.Matrix Model.Graph Proofs.IncidenceRoundTrip Proofs.BipartiteRoundTrip Model.DiHypergraph Proofs.DiInv Proofs.DiToHg.
 Import ListNotations.
 Open Scope Z_scope.
 
@@ -115,3 +115,18 @@ Example C10_nonvacuous :
   h_nattr (st_of (from_hif (to_hif s))) = h_nattr s.
 Proof. vm_compute. repeat split. Qed.
 Print Assumptions C10_nonvacuous.
+
+(* Hypergraph(D) for a directed hypergraph D: the nodes and edges of D in the same order, every edge holding the
+   union of its tail and head, the attribute dicts and the network attributes of D *)
+Theorem C10_hypergraph_of_dihypergraph : forall d, DInv d -> NoNone (ts d) ->
+  let r := hg_of_di d in
+  let t := st_of r in
+  Proofs.HgErrors.out_of r = Ok /\ Inv t /\
+  nkeys t = nkeys (ts d) /\ ekeys t = ekeys (ts d) /\
+  (forall e, In e (ekeys (ts d)) ->
+     (exists M, get e (h_edge t) = Some M /\ forall x, In x M <-> In x (tail d e) \/ In x (head d e)) /\
+     get e (h_eattr t) = Some (aupdate [] (aupdate [] (geta e (h_eattr (ts d)))))) /\
+  (forall n, In n (nkeys (ts d)) -> get n (h_nattr t) = Some (aupdate [] (aupdate [] (geta n (h_nattr (ts d)))))) /\
+  h_net t = h_net (ts d).
+Proof. exact hg_of_di_spec. Qed.
+Print Assumptions C10_hypergraph_of_dihypergraph.
